@@ -372,7 +372,55 @@ def rule_f(ctx: Ctx):
     ctx.ob("C07.d", "FJSPEnv._transit:release-clock", ok, sl.where, why, construct="FJSPEnv._transit_to_next_time:release-clock")
 
 
+def rule_g(ctx: Ctx):
+    """C07.g dispatch of a batched step: rows that chose the wait action (and only those) are sent to the time
+    transition, rows that chose a (job, machine) pair (and only unfinished ones) to _make_step, and the rows written
+    back are the rows that were selected.  Otherwise a wait is decoded as job -1 / a finished schedule is edited."""
+    for cname in ("FJSPEnv", "JSSPEnv"):
+        env = EnvA(ctx.repo, T.ALL_ENVS[cname], cname)
+        sl = env.slot("_step")
+        ctx.fn(sl.fi)
+        enters = [e for e in sl.it.events if e.kind == "call-enter"]
+        tr = [e for e in enters if e.data.name.endswith("._transit_to_next_time") and not any("loopvar" in vg.show(c, 6) for c in e.conds if isinstance(c, vg.S))]
+        mk = [e for e in enters if e.data.name.endswith("._make_step")]
+        if not tr or len(mk) != 1:
+            raise AnalysisError(f"{cname}._step: expected one _make_step call and a wait transition ({len(tr)}, {len(mk)})")
+        m1 = tr[0].data.locals.get("step_complete")
+        tdop = mk[0].data.locals.get("td")
+        if not isinstance(m1, vg.S) or not isinstance(tdop, vg.TD) or not getattr(tdop, "parent", None):
+            raise AnalysisError(f"{cname}._step: _make_step is not applied to td.masked_select(mask)")
+        m2 = tdop.parent[1]
+        merges = [e for e in sl.it.events if e.kind == "tdwrite" and e.data[3] == "rowmerge"]
+        if not merges:
+            raise AnalysisError(f"{cname}._step: no write-back of the stepped rows")
+        same_rows = all(nf.strip(e.data[2]).op == "store" and nf.strip(e.data[2]).args[1] is m2 for e in merges)
+        ctx.ob("C07.g", f"{cname}._step:write-back-rows", same_rows, sl.where,
+               f"td[mask] = td_op uses the mask of td.masked_select(mask) ({len(merges)} cells)", construct=f"{cname}._step:write-back")
+
+        def table(a, d):
+            def assume(n):
+                if n.op == "cell0" and n.args[1] == "done":
+                    return d
+                if nf._cmp_raw(n) is not None and vg.cells_of(n) == {"action"}:
+                    c = nf.cmpnf(n)
+                    if c[1] == "==0":
+                        return a
+                    if c[1] == "!=0":
+                        return not a
+                return None
+            return nf.kleene(m1, assume), nf.kleene(m2, assume)
+
+        want = {(True, False): (True, False), (False, False): (False, True), (True, True): (None, False)}
+        got = {k: table(*k) for k in want}
+        bad = [f"wait={k[0]},done={k[1]}: transit {g[0]} / step {g[1]}" for k, g in got.items()
+               if (want[k][0] is not None and g[0] is not want[k][0]) or g[1] is not want[k][1]]
+        ctx.ob("C07.g", f"{cname}._step:dispatch", not bad, sl.where,
+               "wait & unfinished -> time transition only; job chosen & unfinished -> _make_step only; finished -> never _make_step"
+               + (f"; violated for {bad}" if bad else ""), construct=f"{cname}._step:dispatch")
+
+
 def run(ctx: Ctx):
+    rule_g(ctx)
     rule_a(ctx)
     rule_f(ctx)
     for cname, path in TS.ENVS.items():
